@@ -27,7 +27,7 @@ from hypothesis.stateful import RuleBasedStateMachine, initialize, precondition,
 from .. import core, dsdlgen, tool
 
 FAKE_T = 1700000000.0
-MODES = [0o444, 0o644, 0o600, 0o664, 0o400]
+MODES = [0o444, 0o644, 0o600, 0o664, 0o400, 0o000]
 API_LANG = {"c": "c", "cpp": "cpp", "py": "py"}
 LANGS = {"c": ["--target-language", "c"], "cpp": ["--target-language", "cpp", "--experimental-languages"], "py": ["--target-language", "py"]}
 
@@ -88,7 +88,7 @@ def opt_argv(lang: str, o: dict) -> typing.List[str]:
 
 def content_key(o: dict) -> str:
     if o.get("api"):
-        return f"api|{o['omit']}|{o.get('tree', 'A')}"
+        return f"api|{o['omit']}|{o.get('tree', 'A')}|{'reuse' if o.get('reuse') else 'helper'}"
     sup = "as-needed" if (o["omit"] and o["support"] == "always") else o["support"]
     return f"{o['omit']}|{sup}|{o['pp']}|{bool(o.get('asserts'))}|{o.get('tree', 'A')}"
 
@@ -124,6 +124,8 @@ class Env:
         k = content_key(o)
         if k not in self.model:
             o2 = dict(o, no_overwrite=False, mode=0o644)
+            if o2.get("reuse"):
+                o2["reuse"] = 1
             # the model is produced at the SAME --outdir path (paths may be embedded): move the real directory aside
             aside = self.tmp / "out_aside"
             os.rename(self.out, aside)
@@ -157,6 +159,31 @@ class Env:
         allow_overwrite, ...) in a fresh interpreter with dropped capabilities.  It has no --file-mode / post-processor
         arguments: the file mode is the library default, which the model run (same call into an empty directory) shows.
         """
+        if o.get("reuse"):
+            # ONE pair of generator objects with ONE SetFileMode post-processor, generate_all() called `reuse` times over its own output
+            code = (
+                "import sys, pathlib, nunavut, pydsdl\n"
+                "from nunavut.lang import LanguageContextBuilder\n"
+                "from nunavut._postprocessors import SetFileMode\n"
+                "from nunavut.jinja import DSDLCodeGenerator, SupportGenerator\n"
+                f"root, out = {str(self.roots[o.get('tree', 'A')])!r}, {str(self.out)!r}\n"
+                f"lctx = LanguageContextBuilder(include_experimental_languages=True).set_target_language({API_LANG[self.lang]!r}).create()\n"
+                "types = pydsdl.read_namespace(root, [], allow_unregulated_fixed_port_id=True)\n"
+                "ns = nunavut.build_namespace_tree(types, root, out, lctx)\n"
+                f"pp = [SetFileMode({int(o['mode'])})]\n"
+                "gen, sup = DSDLCodeGenerator(ns, post_processors=pp), SupportGenerator(ns, post_processors=pp)\n"
+                "try:\n"
+                f"    for _ in range({int(o['reuse'])}):\n"
+                f"        sup.generate_all(False, {not o['no_overwrite']!r}, {bool(o['omit'])!r}, False)\n"
+                f"        gen.generate_all(False, {not o['no_overwrite']!r}, {bool(o['omit'])!r}, False)\n"
+                "except PermissionError as e:\n"
+                "    sys.stderr.write('PermissionError: %s' % e); sys.exit(3)\n"
+            )
+            rc, so, se = tool.run_sub([], fake_time=FAKE_T, drop_caps=True, exec_code=code)
+            self.runs += 1
+            if rc == 97:
+                raise core.HarnessError("capability drop ineffective: cannot observe permission bits as root")
+            return rc, se
         code = (
             "import sys, pathlib, nunavut\n"
             "try:\n"
@@ -225,6 +252,15 @@ DIRECTED_HISTORY_D = [
     {"api": True},
     {"support": "only", "mode": 0o444, "asserts": True},
     {"api": True, "no_overwrite": True},
+]
+# generator objects (and their SetFileMode post-processor) reused for several generate_all() calls in one process; --file-mode 0
+DIRECTED_HISTORY_G = [
+    {"api": True, "reuse": 2, "mode": 0o444},
+    {"api": True, "reuse": 3, "mode": 0o640},
+    {"mode": 0o000},
+    {"mode": 0o000, "pp": "trim+limit1"},
+    {"mode": 0o444},
+    {"api": True, "reuse": 2, "mode": 0o400, "omit": True},
 ]
 DIRECTED_HISTORY_E = [
     {"support": "only", "mode": 0o444},
@@ -351,7 +387,7 @@ def make_machine(ctx: core.Ctx):
                     self.fail(f"C12|{lang}|generated-file-missing", f"{p} missing after a successful run")
                 if after[p][1] != c:
                     self.fail(f"C12|{lang}|content-differs-from-fresh-directory-run|{'support' if 'nunavut' in p else 'type-or-namespace'}-file", f"{p} differs from what the same options produce in an empty directory")
-                if not o.get("api") and after[p][0] != o["mode"]:
+                if (not o.get("api") or o.get("reuse")) and after[p][0] != o["mode"]:
                     self.fail(f"C12|{lang}|wrong-file-mode|{'support' if 'nunavut' in p else 'type-or-namespace'}-file", f"{p} has mode {oct(after[p][0])}, requested {oct(o['mode'])}")
             for p, (m, c) in before.items():
                 if p in model:
@@ -431,7 +467,7 @@ def run(ctx: core.Ctx):
     n = 20 if ctx.quick else 120
     machine = make_machine(ctx)
     # directed histories first (one per target): every option dimension is varied once on its own over a populated directory
-    for lang, history in [(l, h) for l in ("c", "py", "cpp") for h in (DIRECTED_HISTORY, DIRECTED_HISTORY_B, DIRECTED_HISTORY_C, DIRECTED_HISTORY_D, DIRECTED_HISTORY_E, DIRECTED_HISTORY_F) if not (h is DIRECTED_HISTORY_F and l == "cpp")]:
+    for lang, history in [(l, h) for l in ("c", "py", "cpp") for h in (DIRECTED_HISTORY, DIRECTED_HISTORY_B, DIRECTED_HISTORY_C, DIRECTED_HISTORY_D, DIRECTED_HISTORY_E, DIRECTED_HISTORY_F, DIRECTED_HISTORY_G) if not (h is DIRECTED_HISTORY_F and l == "cpp")]:
         m = machine()
         m.env = Env(DIRECTED_UNIVERSE, lang)
         m.trace.append({"op": "init", "lang": lang, "directed": True})
